@@ -171,7 +171,7 @@ impl Prop for C02 {
             }
         }
         // A3: the Connector object was used before (refused attempts, a complete connection) and re-configured
-        for earlier in 1..=11u8 {
+        for earlier in 1..=12u8 {
             for use_nla in [true, false] {
                 for check in [false, true] {
                     for sel in [0u32, 1, 2, 8] {
@@ -261,7 +261,7 @@ impl Prop for C02 {
                         cs.push(Case { cert, check_certificate: check, use_nla, selected: 1, block: "certificate", ..base.clone() });
                     }
                     // the same with the builder calls in the five other orders (the decision must not depend on it)
-                    for order in 1..=5u8 {
+                    for order in 1..=6u8 {
                         cs.push(Case { cert, check_certificate: check, use_nla, selected: if use_nla { 2 } else { 1 }, order, block: "certificate-x-builder-order", ..base.clone() });
                     }
                     // the same under the other logon modes (the certificate decision must not depend on them)
